@@ -1,0 +1,52 @@
+//go:build verif
+
+package shell_operator
+
+import (
+	"context"
+	"fmt"
+	"path/filepath"
+	"strings"
+
+	"github.com/deckhouse/deckhouse/pkg/log"
+
+	"github.com/flant/shell-operator/pkg/app"
+	metricstorage "github.com/flant/shell-operator/pkg/metric_storage"
+	"github.com/flant/shell-operator/pkg/webhook/admission"
+)
+
+// VerifC14NewOperator assembles a ShellOperator over a hooks directory (setupHookManagers,
+// initHookManager) and runs the real initValidatingWebhookManager with settings whose CA file
+// exists (caPath) and whose server key pair does not: Init(), EnableAdmissionBindings() for every
+// hook and WithAdmissionEventHandler(<the real closure>) run as in production, then Start() gives up
+// at tls.LoadX509KeyPair, before anything listens or talks to a cluster. The returned handler is the
+// manager's real WebhookHandler (chi router + closure). A nil handler means the operator found no
+// admission hooks.
+func VerifC14NewOperator(hooksDir, tempDir, caPath string) (*ShellOperator, *admission.WebhookHandler, error) {
+	op := NewShellOperator(context.Background(), WithLogger(log.NewNop()))
+	op.MetricStorage = metricstorage.NewMetricStorage(op.ctx, "verif_", true, log.NewNop())
+	op.HookMetricStorage = metricstorage.NewMetricStorage(op.ctx, "verif_", true, log.NewNop())
+	op.SetupEventManagers()
+	op.setupHookManagers(hooksDir, tempDir)
+	if err := op.initHookManager(); err != nil {
+		return nil, nil, err
+	}
+
+	settings := *app.ValidatingWebhookSettings
+	settings.CAPath = caPath
+	settings.ServerCertPath = filepath.Join(tempDir, "verif-no-such-cert.crt")
+	settings.ServerKeyPath = filepath.Join(tempDir, "verif-no-such-cert.key")
+	op.AdmissionWebhookManager.Settings = &settings
+
+	err := op.initValidatingWebhookManager()
+	if err != nil && !strings.Contains(err.Error(), "load TLS certs") {
+		return nil, nil, err
+	}
+	if err == nil && op.AdmissionWebhookManager.Handler != nil {
+		return nil, nil, fmt.Errorf("verif: the webhook server was expected not to start")
+	}
+	return op, op.AdmissionWebhookManager.Handler, nil
+}
+
+// VerifC14Stop cancels the operator context.
+func (op *ShellOperator) VerifC14Stop() { op.Stop() }
